@@ -201,7 +201,6 @@ pub struct CodegenContext {
     current_scope: IdentifierPath,
     current_scope_nx: SymbolIndex,
 
-    next_macro_scope_id: usize,
     macro_invocation_depth: usize,
     /// Set when an invocation went over the nesting limit in this pass: what is left of the expansion is abandoned
     macro_nesting_exceeded: bool,
@@ -258,7 +257,6 @@ impl CodegenContext {
             prev_new_symbols: (0, 0),
             current_scope: IdentifierPath::empty(),
             current_scope_nx: SymbolIndex::new(0),
-            next_macro_scope_id: 0,
             macro_invocation_depth: 0,
             macro_nesting_exceeded: false,
             dummy_segment_depth: 0,
@@ -356,7 +354,6 @@ impl CodegenContext {
 
     fn next_pass(&mut self) {
         self.pass_idx += 1;
-        self.next_macro_scope_id = 0;
         self.macro_nesting_exceeded = false;
         self.prev_new_symbols = std::mem::take(&mut self.new_symbols);
 
@@ -1082,7 +1079,12 @@ impl CodegenContext {
                     ),
                 )?;
             }
-            Token::MacroInvocation { id: name, args, .. } => {
+            Token::MacroInvocation {
+                id: name,
+                invocation_scope,
+                args,
+                ..
+            } => {
                 let def = self
                     .get_evaluator()
                     .get_symbol_filtered(
@@ -1124,9 +1126,11 @@ impl CodegenContext {
                             .into());
                     }
 
-                    let macro_scope =
-                        Identifier::new(format!("$macro_{}", self.next_macro_scope_id));
-                    self.next_macro_scope_id += 1;
+                    // Every invocation has a scope of its own, which it keeps from pass to pass (a running number handed
+                    // out when the macro is expanded does not do that: an invocation of a macro that is defined further on
+                    // is only expanded from the second pass on, and would then take over the scope, with everything
+                    // defined in it, that another invocation had in the pass before)
+                    let macro_scope = invocation_scope.as_ref().clone();
 
                     // The arguments belong to the invocation, so they are evaluated in its scope and not in the macro's:
                     // there 'm(v)' would refer to the parameter itself if that happens to be called 'v' as well
